@@ -50,6 +50,15 @@ pub fn run_c06_case(p: &Program, cfg: &Config, max_iters_for_injection: usize) -
     let mut rep = CaseReport { program: p.text(), program_hash: p.hash(), nontrivial: p.nontrivial(), ..Default::default() };
     let clean_probe = probe_signature();
     set_panic_fault(None);
+    // thread-local / lazy-static values own a loom object: it is dropped by a loom operation,
+    // also when the model is failing and the values are dropped with the execution
+    set_statics_own_arc(true);
+    let rep = run_c06_case_inner(p, cfg, max_iters_for_injection, rep, clean_probe);
+    set_statics_own_arc(false);
+    rep
+}
+
+fn run_c06_case_inner(p: &Program, cfg: &Config, max_iters_for_injection: usize, mut rep: CaseReport, clean_probe: (String, usize, u64)) -> CaseReport {
     let (dry, tr) = trace_run(p, cfg);
     rep.iterations = dry.iterations;
     rep.status = match &dry.status {
@@ -106,7 +115,11 @@ pub fn run_c06_case(p: &Program, cfg: &Config, max_iters_for_injection: usize) -
                             let expected_iter = iters[hit - 1];
                             let fault = PanicFault { tid, pc, hit: hit as u32, marker };
                             set_panic_fault(Some(fault));
+                            // "panic whenever this op is reached" is a deterministic program: the
+                            // unwinding thread drops what it owns like a real program does
+                            set_real_drops(hit == 1);
                             let (run, tri) = trace_run(p, cfg);
+                            set_real_drops(false);
                             let did_fire = panic_fault_fired();
                             set_panic_fault(None);
                             if did_fire {
@@ -143,6 +156,86 @@ pub fn run_c06_case(p: &Program, cfg: &Config, max_iters_for_injection: usize) -
             }
         }
     }
+    // F-assert: the panic of a failing user assertion - "if op c returned v, panic" - placed right
+    // after op c. It first fires in the first iteration in which (t, c) returns v (known from the
+    // dry run); being a function of the execution it may be followed by real destructors.
+    let mut assert_faults = 0u64;
+    if matches!(dry.status, LoomStatus::Completed) && dry.iterations <= max_iters_for_injection && rep.violations.is_empty() {
+        let mut first: std::collections::BTreeMap<(usize, usize, u64), usize> = std::collections::BTreeMap::new();
+        for (i, out) in tr.outcomes.iter().enumerate() {
+            for tok in out.split_whitespace() {
+                // "T<t>.<pc>=<val>"
+                let tok = tok.trim_start_matches('T');
+                let (lhs, val) = match tok.split_once('=') {
+                    Some(x) => x,
+                    None => continue,
+                };
+                let (t, c) = match lhs.split_once('.') {
+                    Some(x) => x,
+                    None => continue,
+                };
+                if let (Ok(t), Ok(c), Ok(v)) = (t.parse::<usize>(), c.parse::<usize>(), val.parse::<u64>()) {
+                    first.entry((t, c, v)).or_insert(i + 1);
+                }
+            }
+        }
+        // the conditions that first hold latest, in the middle and at once
+        let mut conds: Vec<((usize, usize, u64), usize)> = first.into_iter().filter(|((t, c, _), _)| *t < p.threads.len() && *c < p.threads[*t].len() && !matches!(p.threads[*t][*c], Op::If { .. })).collect();
+        conds.sort_by_key(|(_, it)| *it);
+        let mut picks: Vec<((usize, usize, u64), usize)> = Vec::new();
+        if let Some(x) = conds.last() {
+            picks.push(*x);
+        }
+        if conds.len() >= 3 {
+            picks.push(conds[conds.len() / 2]);
+        }
+        if let Some(x) = conds.first() {
+            picks.push(*x);
+        }
+        picks.dedup();
+        let mut marker = 5000u32;
+        for ((t, c, v), expected_iter) in picks {
+            marker += 1;
+            assert_faults += 1;
+            let mut q = p.clone();
+            q.threads[t].insert(c + 1, Op::If { pc: c as u8, eq: v, then: Box::new(Op::Panic { marker }) });
+            for (i, op) in q.threads[t].iter_mut().enumerate() {
+                if i == c + 1 {
+                    continue;
+                }
+                if let Op::If { pc, .. } = op {
+                    if *pc as usize > c {
+                        *pc += 1;
+                    }
+                }
+            }
+            set_real_drops(true);
+            let (run, tri) = trace_run(&q, cfg);
+            set_real_drops(false);
+            let ctx = format!("a panic raised when {} (T{} pc{}) returns {} (first in iteration {}), with the panicking thread dropping what it owns", p.threads[t][c], t, c, v, expected_iter);
+            let ok_status = matches!(&run.status, LoomStatus::Failed { class: FailClass::UserPanic(m), .. } if *m == marker);
+            let mut problem: Option<String> = None;
+            if !ok_status {
+                problem = Some(format!("expected the panic to reach the caller, got {:?}", run.status));
+            } else if run.iterations + 1 != expected_iter {
+                problem = Some(format!("the panic was raised in iteration {} instead of {}", run.iterations + 1, expected_iter));
+            } else if tri.path_hashes[..] != tr.path_hashes[..run.iterations] {
+                problem = Some("the iterations before the panic took different decisions than in the fault-free run".to_string());
+            }
+            if let Some(pb) = problem {
+                rep.violations.push(Violation {
+                    kind: "panic_propagation".into(),
+                    detail: format!("{}: {}", ctx, pb),
+                    known: None,
+                    evidence: json!({"program_with_assertion": q.text()}),
+                });
+            }
+            check_probe(&mut rep, ctx);
+            if !rep.violations.is_empty() {
+                break;
+            }
+        }
+    }
     // F-limit: the branch limit strikes in the middle of an execution (a panic raised by loom
     // itself, from inside an operation); with exactly the needed capacity nothing changes
     let mut limit_faults = 0u64;
@@ -157,7 +250,10 @@ pub fn run_c06_case(p: &Program, cfg: &Config, max_iters_for_injection: usize) -
         let budgets: Vec<usize> = if need <= 40 { (1..need).collect() } else { vec![1, need / 3, need / 2, need - 2, need - 1] };
         for b in budgets {
             c2.max_branches = b;
+            // (loom's own panic is a function of the execution: real destructors follow)
+            set_real_drops(true);
             let (run, _) = trace_run(p, &c2);
+            set_real_drops(false);
             limit_faults += 1;
             // (loom does not enforce the limit at a branch performed while a panic unwinds - the
             // limit panic would be a double panic - so a budget that runs out inside the
@@ -211,6 +307,8 @@ pub fn run_c06_case(p: &Program, cfg: &Config, max_iters_for_injection: usize) -
             }
         }
     }
+    rep.extra.insert("fault_assert_panic_fired".into(), assert_faults);
+    rep.extra.insert("unwinding_threads_with_real_drops".into(), REAL_DROP_UNWINDS.with(|c| c.replace(0)));
     rep.extra.insert("fault_branch_limit_fired".into(), limit_faults);
     rep.extra.insert("fault_panic_configured".into(), injected);
     rep.extra.insert("fault_panic_fired".into(), fired);
